@@ -5065,8 +5065,17 @@ impl<'a, 'graph> Builder<'a, 'graph> {
           }
           let base_url = self.jsr_url_provider.package_url(nv);
           let export_name = resolution_item.nv_ref.export_name();
-          match version_info.export(&export_name) {
-            Some(export_value) => {
+          // an export value that can't be joined to the package url (malformed
+          // manifest) is not a usable export
+          let maybe_export = match version_info.export(&export_name) {
+            Some(export_value) => match base_url.join(export_value) {
+              Ok(specifier) => Some((export_value, specifier)),
+              Err(_) => None,
+            },
+            None => None,
+          };
+          match maybe_export {
+            Some((export_value, specifier)) => {
               self.graph.packages.add_export(
                 nv,
                 (
@@ -5078,7 +5087,6 @@ impl<'a, 'graph> Builder<'a, 'graph> {
                 self.graph.packages.add_top_level_package(nv.clone());
               }
 
-              let specifier = base_url.join(export_value).unwrap();
               self
                 .graph
                 .redirects
